@@ -24,6 +24,7 @@
 
 struct dnse_ns dnse_ns[DNSE_MAXNS];
 long dnse_spins;
+long dnse_stream_sockets;
 unsigned long dnse_rng_id_calls;
 static int rng_mode;
 
@@ -83,6 +84,7 @@ int __wrap_socket(int domain, int type, int protocol)
 	if (fd >= 0 && (type & 0xf) == SOCK_STREAM && (domain == AF_INET || domain == AF_INET6)) {
 		struct linger lg = { 1, 0 };
 		struct stat st;
+		dnse_stream_sockets++;
 		setsockopt(fd, SOL_SOCKET, SO_LINGER, &lg, sizeof lg);
 		if (fstat(fd, &st) == 0) {
 			int i;
@@ -413,9 +415,38 @@ void dnse_listener_close(int ns)
 	close(n->lis); n->lis = -1; n->listening = 0;
 }
 
+long dnse_udp_sent_total(void)
+{
+	long t = 0;
+	for (int i = 0; i < DNSE_MAXNS; i++) t += dnse_ns[i].sent;
+	return t;
+}
+
 int dnse_tcp_open_conns(int ns)
 {
 	int k = 0;
 	for (int c = 0; c < DNSE_MAXTCP; c++) k += dnse_ns[ns].tcp[c].open;
 	return k;
 }
+
+/* ------------------------------------------------------------------ allocator */
+#include <event2/event.h>
+static long a_live;
+#define MAXWATCH 16
+static const void *watched[MAXWATCH]; static int nwatched;
+static void *a_malloc(size_t n) { void *p = malloc(n ? n : 1); if (p) a_live++; return p; }
+static void a_unwatch(const void *p) { for (int i = 0; i < nwatched; i++) if (watched[i] == p) watched[i] = NULL; }
+static void *a_realloc(void *p, size_t n)
+{
+	if (!p) return a_malloc(n);
+	if (n == 0) { a_unwatch(p); free(p); a_live--; return NULL; }
+	void *q = realloc(p, n);
+	if (q && q != p) a_unwatch(p);
+	return q;
+}
+static void a_free(void *p) { if (!p) return; a_unwatch(p); a_live--; free(p); }
+void dnse_alloc_install(void) { event_set_mem_functions(a_malloc, a_realloc, a_free); }
+long dnse_alloc_live(void) { return a_live; }
+void dnse_watch_reset(void) { nwatched = 0; }
+void dnse_watch(const void *p) { if (p && nwatched < MAXWATCH) watched[nwatched++] = p; }
+int dnse_is_live(const void *p) { if (!p) return 0; for (int i = 0; i < nwatched; i++) if (watched[i] == p) return 1; return 0; }
